@@ -37,6 +37,12 @@ CLAIMS = {
         'note': 'Trusts the SETTINGS table in yrsa/rules/C10.py (each entry has its reason) and type-based effect analysis. A reset performed conditionally inside the fresh-scan branch counts as a reset.',
         'technique': 'static write-set vs reset-set comparison (effect analysis + must-assign paths) and must-pass-through rules over clang CFG facts',
     },
+    'C11': {
+        'text': 'Decides the shape of the callback protocol: every call through a callback pointer in the library carries a message that its enclosing function is permitted to emit (SCAN_FINISHED, IMPORT_MODULE, MODULE_IMPORTED have exactly one site); the reporting loop walks the rule table in definition order with one call per rule, and on every path to that call the rule was tested not private, RULE_MATCHING implies match bit set and namespace satisfied, RULE_NOT_MATCHING the opposite, each gated by its report flag; after CALLBACK_ABORT/ERROR from a rule message no further callback call is reachable and ERROR_SUCCESS/ERROR_CALLBACK_ERROR is returned; CALLBACK_ERROR from a module message fails yr_modules_load and stops OP_IMPORT; an already loaded module is silent; only OP_INIT_RULE/OP_MATCH_RULE and the cleaner write the two bookkeeping bitmasks. "Matching iff the condition holds" is not decided.',
+        'design_ref': 'DESIGN.md section 4, C11 (R11.1-R11.4)',
+        'note': 'Trusts the PERMITTED table and the recognition of the bitmask/private macros (an unrecognised loop makes the check exit 2).',
+        'technique': 'static who-may-call table + path-sensitive fact tracking over the reporting loop and the return-value switch (clang CFG facts)',
+    },
     'C12': {
         'text': 'Decides, for every constant-folding grammar action, that the folder applies the same C operator and the same operand-value guards as the VM handler of the opcode the action emits; that no compiler-layer code reads a run-time object value; that externals are looked up in the scanner-owned table; and that shortcut flags are cleared on every path that uses a string otherwise. These are necessary structural clauses of C12, decided on all sites; verdict equality itself is not decided.',
         'design_ref': 'DESIGN.md section 4, C12 (R12.1-R12.6)',
